@@ -123,7 +123,8 @@ func (c04PropStore) PropStatus(s, d uint8, n uint64) (store.PropStatus, error) {
 
 // ---- Substrate connection for the retry paths
 type c04SubConn struct {
-	fin     string // <finalized> | E[~<best>] (GetFinalizedHead fails) | F[~<best>] (GetBlock fails); best = unfinalized head
+	hs      []*big.Int // retried heights of the range's Retry events (several events in one range); nil: just h
+	fin     string     // <finalized> | E[~<best>] (GetFinalizedHead fails) | F[~<best>] (GetBlock fails); best = unfinalized head
 	h       *big.Int
 	fetched []string
 }
@@ -163,10 +164,18 @@ func (c *c04SubConn) GetBlockHash(n uint64) (types.Hash, error) {
 func (c *c04SubConn) GetBlockEvents(types.Hash) ([]*parser.Event, error) { return nil, nil }
 func (c *c04SubConn) UpdateMetatdata() error                              { return nil }
 func (c *c04SubConn) FetchEvents(s, e *big.Int) ([]*parser.Event, error) {
-	return []*parser.Event{{Name: "SygmaBridge.Retry", Fields: registry.DecodedFields{
-		&registry.DecodedField{Name: "deposit_on_block_height", Value: types.NewU128(*c.h)},
-		&registry.DecodedField{Name: "dest_domain_id", Value: types.NewU8(2)},
-	}}}, nil
+	hs := c.hs
+	if hs == nil {
+		hs = []*big.Int{c.h}
+	}
+	out := []*parser.Event{}
+	for _, h := range hs {
+		out = append(out, &parser.Event{Name: "SygmaBridge.Retry", Fields: registry.DecodedFields{
+			&registry.DecodedField{Name: "deposit_on_block_height", Value: types.NewU128(*h)},
+			&registry.DecodedField{Name: "dest_domain_id", Value: types.NewU8(2)},
+		}})
+	}
+	return out, nil
 }
 
 // mutable variants for the sequence op: one handler instance, the chain head changes between steps
@@ -374,6 +383,22 @@ func init() {
 		rh := subListenerR.NewRetryEventHandler(zerolog.Context{}, c, nil, 1, make(chan []*message.Message, 4))
 		err := rh.HandleEvents(big.NewInt(0), big.NewInt(4))
 		if err != nil {
+			return "err"
+		}
+		if len(c.fetched) == 0 {
+			return "skip"
+		}
+		return "fetched:" + strings.Join(c.fetched, ",")
+	}
+	// subretryevents <fin|E|F> <h1,h2,…>  =>  fetched:<heights in order> | skip | err
+	//   SEVERAL Retry events in one scanned range, each judged against the finalized head on its own
+	ops["C04.subretryevents"] = func(a []string) string {
+		c := &c04SubConn{fin: a[0]}
+		for _, h := range items(a[1], ",") {
+			c.hs = append(c.hs, bigArg(h))
+		}
+		rh := subListenerR.NewRetryEventHandler(zerolog.Context{}, c, nil, 1, make(chan []*message.Message, 4))
+		if err := rh.HandleEvents(big.NewInt(0), big.NewInt(4)); err != nil {
 			return "err"
 		}
 		if len(c.fetched) == 0 {
@@ -742,6 +767,21 @@ func genC04(g *G) {
 			}
 		}
 	}
+	// several Substrate retry events in one range: every combination of heights around the finalized head, any order
+	for _, fin := range []int64{5, 100} {
+		hs := []int64{fin - 5, fin - 1, fin, fin + 1, fin + 6}
+		for _, x := range hs {
+			for _, y := range hs {
+				g.Emit("subretryevents", itoa64(fin), itoa64(x)+","+itoa64(y))
+				for _, z := range []int64{fin - 2, fin + 1} {
+					g.Emit("subretryevents", itoa64(fin), itoa64(x)+","+itoa64(y)+","+itoa64(z))
+				}
+			}
+		}
+	}
+	g.Emit("subretryevents", "100", "18446744073709551711,95")
+	g.Emit("subretryevents", "100", "95,18446744073709551711")
+	g.Emit("subretryevents", "E", "5,6")
 	// two retries in flight on the one shared handler: all boundary combinations, both release orders
 	for _, kind := range []string{"evm", "btc", "sub"} {
 		for _, order := range []string{"AB", "BA"} {
